@@ -1060,3 +1060,8 @@ TRUSTED = list(TRUSTED) + [
     "source tie covers the slice-level routines only (substitutions, lu, lu_solve, try_cholesky, cholesky_solve, and the routing glue / per-column loops of solve, solve_sys, invert_matrix); "
     "the predicates is_symmetric / is_positive_definite / is_exactly_symmetric / is_square / is_matrix and every Matrix method (Matrix::lu, Solve::lu_solve, Solve<Matrix>::{lu_solve, solve}, Matrix::inv) are hand-modelled and tied by run-time bit-exact correspondence only",
 ]
+
+# --- review repairs in the Rounding layer (renamed stdmodel_* theorems, underflow-aware variants, genuine FlModel instance; wired by the lead)
+PROOF_MODULES = PROOF_MODULES + [m for m in ['Compute.Lemmas.FlModelGrid', 'Compute.Props.RoundingGrid'] if m not in PROOF_MODULES]
+REQUIRED_THEOREMS = REQUIRED_THEOREMS + [t for t in ['Cv.RoundingGrid.Step.HG_solve', 'Cv.FlModel.grid_abs_sub_le', 'Cv.FlModel.grid_idem', 'Cv.FlModel.grid_mono', 'Cv.FlModel.grid_rnd_one', 'Cv.FlModel.grid_rnd_natCast', 'Cv.FlModel.grid_rnd_dyadic', 'Cv.FlModel.f64grid_u', 'Cv.FlModel.f64grid_mono'] if t not in REQUIRED_THEOREMS]
+NOT_PROVED = list(NOT_PROVED) + ['FlModel has a genuine instance, FlModel.grid p (radix 2, p digits, round to nearest, unbounded exponent; f64grid has u = 2^-53), proved to satisfy the standard model and to be idempotent and monotone, with integers <= 2^p and dyadics exact (Lemmas/FlModelGrid); headline rounding theorems are instantiated on it (Props/RoundingGrid); overflow and underflow remain outside the model']
